@@ -1015,7 +1015,7 @@ def clean_cases(ctx, volume=1):
         shapes3 += [sh for k, sh in enumerate(four) if k % 3 == ctx.seed % 3]
         ctx.count("plate-structures-3:four-factor-third", 1)
     else:
-        for _ in range(600 * volume):      # 4 factors: sampled in the quick tier
+        for _ in range(450 * volume):      # 4 factors: sampled in the quick tier
             shapes3.append([tuple(n for b, n in enumerate(NAMES6) if m >> b & 1)
                             for m in (rng.randrange(64) for _ in range(4))])
     for si, shape in enumerate(shapes3):
@@ -1035,7 +1035,7 @@ def clean_cases(ctx, volume=1):
                 ctx.count("plate-structures-3:creates-new-ordinal")
             yield variants_for(rng, g, plates3, elim, full=False)
             # other factor kinds (Constant over some of the plates, Number, lazy) on the same shape
-            if rng.random() < (0.3 if not thorough else 0.5):
+            if rng.random() < (0.22 if not thorough else 0.5):
                 srd = rng.choice(["add-mul", "add-mul", "logaddexp-add", "logaddexp-add", "max-add", "min-mul"])
                 gd = make_graph(rng, [tuple(f) for f in shape], sizes, srd)
                 cs = decorated_cases(rng, gd, plates3, elim)
@@ -1043,7 +1043,7 @@ def clean_cases(ctx, volume=1):
                     ctx.count("stratum:factor-kinds")
                     yield cs
     # --- random larger ---------------------------------------------------------------------
-    n = (500 if not thorough else 3500) * volume
+    n = (400 if not thorough else 3500) * volume
     made = 0
     while made < n:
         factors, sizes, plates = gen_random_graph(rng, ctx.tier)
@@ -1056,9 +1056,9 @@ def clean_cases(ctx, volume=1):
 
 
 def correspond(ctx):
-    ctx.rule = ("(0) EVERY plate structure: all multisets of <= 3 factors (thorough: plus a seed-rotated third of the 33,963 four-factor shapes; quick samples 600 with 4) over "
+    ctx.rule = ("(0) EVERY plate structure: all multisets of <= 3 factors (thorough: plus a seed-rotated third of the 33,963 four-factor shapes; quick samples 450 with 4) over "
                 "3 variables and 3 plates up to renaming (3038 / 37001 shapes), full elimination (+ a random eliminate set), "
-                "sizes fitted under the unrolling cap, six semirings in rotation; on 30% (thorough 50%) of these shapes also a copy "
+                "sizes fitted under the unrolling cap, six semirings in rotation; on 22% (thorough 50%) of these shapes also a copy "
                 "with other FACTOR KINDS of identical meaning: funsor.Constant over 1-3 of a factor's plates, Number, lazy "
                 "Binary, and the SAME funsor object listed 2-3 times (duplicate factors) (psp + sum_product / plate-at-a-time and random two-call splits); "
                 "(1) every multiset of <= 3 factors over 3 variables and 2 plates up to renaming (1018 shapes), sizes 1-2, "
